@@ -5,3 +5,5 @@ package frugal
 func verifHook(point string, obj interface{}, id uint64, n int) {}
 
 func verifOpID(ctx FContext) uint64 { return 0 }
+
+func verifChanID(c chan struct{}) uint64 { return 0 }
